@@ -64,10 +64,22 @@ def plan(seed, subbatch):
     if out[-1]["op"] != "check":
         out.append({"op": "check"})
     return {"format": 1, "property": ID, "seed": seed, "subbatch": subbatch,
-            "config": {"spec": spec, "base_s": base_s}, "ops": out, "fired": dict(fired)}
+            "config": {"spec": spec, "base_s": base_s,
+                       "utc_offset_min": cfg.choice((None, None, None, None, 0, 60, -210))},
+            "ops": out, "fired": dict(fired)}
 
 
 def execute(trace, ctx=None):
+    from .. import catalogue
+
+    catalogue.TZ_OFFSET_MIN = trace["config"].get("utc_offset_min")
+    try:
+        return _execute(trace)
+    finally:
+        catalogue.TZ_OFFSET_MIN = None
+
+
+def _execute(trace):
     def body(run):
         spec = trace["config"]["spec"]
         label = spec_label(spec)
